@@ -163,6 +163,11 @@ func slotAlts() []slotAlt {
 		{label: "rec-union", typ: "Expr", declA: "type Expr interface {\n\tisExpr()\n}\n\ntype Lit struct {\n\tV int\n}\n\ntype Add struct {\n\tL, R Expr\n}\n\nfunc (Lit) isExpr() {}\nfunc (Add) isExpr() {}\n", local: true},
 		{label: "rec-self-slice", typ: "Chain", declA: "type Chain []Chain\n", local: true},
 		{label: "rec-self-map", typ: "Trie", declA: "type Trie map[string]Trie\n", local: true},
+		{label: "Color", typ: "Color", local: true},
+		{label: "Shape", typ: "Shape", local: true},
+		{label: "sub2.Delivery", typ: "sub2.Delivery", local: true},
+		{label: "[]sub2.Delivery", typ: "[]sub2.Delivery", local: true},
+		{label: "sub2.Route", typ: "sub2.Route", local: true},
 		// other packages
 		{label: "subpkg.Info", typ: "subpkg.Info"},
 		{label: "subpkg.Kind", typ: "subpkg.Kind"},
@@ -266,7 +271,7 @@ func TypesWith(c explore.Chooser, opt TypesOpt) *prog.Program {
 	}
 	host := s.Pick("slot.host", hosts...)
 	neighbourTag := s.Pick("union.neighbour-tag", "", "`json:\"name\"`", "`json:\"-\"`", "`json:\"n,omitempty\"`")
-	embedded := s.Pick("embedded", "none", "exported", "unexported", "tagged", "from-sub", "non-struct")
+	embedded := s.Pick("embedded", "none", "exported", "unexported", "tagged", "from-sub", "non-struct", "tagged-same-name", "tagged-omitempty")
 	style := s.Pick("decl.style", "separate", "grouped")
 	dartRoot := s.Pick("dart.root", "under-go-src", "outside-go-src")
 	secondFile := s.Pick("second-file", "no", "yes")
@@ -413,6 +418,12 @@ func TypesWith(c explore.Chooser, opt TypesOpt) *prog.Program {
 	case "tagged":
 		add("type Base struct {\n\tCreated int\n\tOwner   string\n}")
 		embField = "\tBase `json:\"base\"`\n"
+	case "tagged-same-name":
+		add("type Base struct {\n\tCreated int\n\tOwner   string\n}")
+		embField = "\tBase `json:\"Base\"`\n"
+	case "tagged-omitempty":
+		add("type Base struct {\n\tCreated int\n\tOwner   string\n}")
+		embField = "\tBase `json:\",omitempty\"`\n"
 	case "from-sub":
 		embField = "\tsubpkg.Base\n"
 	case "non-struct":
@@ -446,6 +457,8 @@ func TypesWith(c explore.Chooser, opt TypesOpt) *prog.Program {
 		"\tAt    time.Time\n" +
 		"\tInfo  subpkg.Info\n" +
 		"\tCnt   Count\n" +
+		"\tOpt   Color `json:\"opt,omitempty\"`\n" +
+		"\tTags  []string `json:\"tags,omitempty\"`\n" +
 		itemSlot + "}"
 	add(item)
 
@@ -502,6 +515,9 @@ func TypesWith(c explore.Chooser, opt TypesOpt) *prog.Program {
 		if !isSub && regexp.MustCompile(`\b`+subName+`\.`).MatchString(body) {
 			imps = append(imps, fmt.Sprintf("\t%q", subPath))
 		}
+		if !isSub && strings.Contains(body, "sub2.") {
+			imps = append(imps, fmt.Sprintf("\t%q", rootPath+"/sub2"))
+		}
 		sort.Strings(imps)
 		hdr := "package " + pkgName + "\n\n"
 		if len(imps) > 0 {
@@ -511,10 +527,16 @@ func TypesWith(c explore.Chooser, opt TypesOpt) *prog.Program {
 	}
 
 	p := &prog.Program{Family: "F-types", Analysed: []string{"a.go"}, Features: s.Feats}
+	useSub2 := strings.Contains(slot.typ, "sub2.")
 	if dartRoot == "outside-go-src" {
 		p.SrcRoot = "/virt/work"
 	}
 	p.Pkgs = append(p.Pkgs, &prog.Pkg{Path: subPath, Name: subName, Files: []prog.File{{Name: "sub.go", Src: finish(subName, sub.String(), true)}}})
+	if useSub2 {
+		// a third package importing the second one (diamond: root -> sub2 -> subpkg <- root)
+		src := "package sub2\n\nimport \"" + subPath + "\"\n\ntype Delivery struct {\n\tTo   " + subName + ".Info\n\tKind " + subName + ".Kind\n}\n\ntype Route struct {\n\tStops []Delivery\n\tIDs   []" + subName + ".Ident\n}\n"
+		p.Pkgs = append(p.Pkgs, &prog.Pkg{Path: rootPath + "/sub2", Name: "sub2", Files: []prog.File{{Name: "sub2.go", Src: src}}})
+	}
 	root := &prog.Pkg{Path: rootPath, Name: rootName, Files: []prog.File{
 		{Name: "a.go", Src: finish(rootName, a.String(), false)},
 		{Name: "b.go", Src: finish(rootName, b.String(), false)},
